@@ -2,10 +2,19 @@ package props
 
 import (
 	"bytes"
+	"context"
+	"encoding/json"
 	"fmt"
+	"io"
+	"net"
+	"os"
+	"os/exec"
+	"path/filepath"
 	"strings"
+	"time"
 	"unicode/utf8"
 
+	"github.com/gokrazy/rsync/rsyncd"
 	"github.com/gokrazy/rsync/verifharness/core"
 	"github.com/gokrazy/rsync/verifharness/drive"
 	tm "github.com/gokrazy/rsync/verifharness/treemodel"
@@ -331,13 +340,14 @@ func init() {
 	core.Register(&core.Prop{
 		ID:    "C01",
 		Level: "model_checking",
-		Rule: "part matrix: every (option subset of {-l,-p,-t,-g,-o,-D,-c,-I,-a} with -r) x arrangement {daemon-pull, daemon-push, local, lib-pull, lib-push} is a real session over a tree holding the full product size x content family x prior-destination variant (absent, identical, edited, truncated, extended, other type in the way, ...); part forms: source forms (directory itself, single file, two sources, no -r) x option sets x arrangements; part big: sizes around the 256 KiB chunk/window (thorough: 12 boundary sizes up to 3 MiB x 6 families); part histories: explicit-state BFS (depth 2, thorough 3) over edits on either side (4 contents incl. empty and same-size twins, deletes, symlink/directory in the way) and real syncs with 4 option sets x 5 arrangements, so that prior destination states are reached by earlier syncs. " +
+		Rule: "part matrix: every (option subset of {-l,-p,-t,-g,-o,-D,-c,-I,-a} with -r) x arrangement {daemon-pull, daemon-push, local, lib-pull, lib-push} is a real session over a tree holding the full product size x content family x prior-destination variant (absent, identical, edited, truncated, extended, other type in the way, ...); part forms: source forms (directory itself, single file, two sources, no -r) x option sets x arrangements; part forms also covers directories and their contents below the source root (module/sub/dir, module/sub/dir/); part cli: the gokr-rsync command in its own process with its default landlock sandbox, for 8 ways of naming the source (dir/, dir, file, two sources, nested directory, nested file, ./dir, path with ..) x {-r,-a,-rt,-d} x {local copy, push to and pull from a daemon on a loopback socket}: exit status 0 and every expected file present with the source's bytes; part big: sizes around the 256 KiB chunk/window (thorough: 12 boundary sizes up to 3 MiB x 6 families); part histories: explicit-state BFS (depth 2, thorough 3) over edits on either side (4 contents incl. empty and same-size twins, deletes, symlink/directory in the way) and real syncs with 4 option sets x 5 arrangements, so that prior destination states are reached by earlier syncs. " +
 			"states = regular files whose destination bytes were compared with the reference update rule, transitions = sessions; a case is non-trivial when at least one file was actually replaced",
 		Assum: []string{"tmpfs scratch behaves like a POSIX file system", "sessions run as root"},
 		Parts: func(tier string) []core.Part {
 			return []core.Part{
 				{Name: "matrix", Build: c01BuildMatrix},
 				{Name: "forms", Build: c01BuildForms},
+				{Name: "cli", Build: c01BuildCLI},
 				{Name: "big", Build: c01BuildBig},
 				{Name: "longname", Build: c01BuildLongName},
 				{Name: "histories", Build: c01BuildHistories},
@@ -446,6 +456,189 @@ func c01BuildForms(tier string) core.Source {
 			sc.Dst = d2
 		}
 		return c01Check(sc, files, nil)
+	}}
+}
+
+// c01RunCLI runs the gokr-rsync command line in a child process (the harness
+// binary re-executed as the command), with the command's default sandboxing.
+func c01RunCLI(dir string, args []string) (rc int, stderr string) {
+	js, _ := json.Marshal(args)
+	cmd := exec.Command(os.Args[0], "-test.run=^TestEntry$")
+	cmd.Env = append(os.Environ(), "VCHECK_CLI="+string(js), "VCHECK_WORKER=", "VCHECK_ARGS=")
+	cmd.Dir = dir
+	var eb bytes.Buffer
+	cmd.Stderr = &eb
+	cmd.Stdout = &eb
+	done := make(chan error, 1)
+	if err := cmd.Start(); err != nil {
+		return -1, err.Error()
+	}
+	go func() { done <- cmd.Wait() }()
+	select {
+	case err := <-done:
+		if err != nil {
+			if ee, ok := err.(*exec.ExitError); ok {
+				return ee.ExitCode(), eb.String()
+			}
+			return -1, err.Error()
+		}
+		return 0, eb.String()
+	case <-time.After(60 * time.Second):
+		cmd.Process.Kill()
+		<-done
+		return -2, "timeout\n" + eb.String()
+	}
+}
+
+// c01BuildCLI: the command itself, in its own process and with its default
+// sandboxing (landlock), for every way of naming the source: local copies and
+// transfers from/to a daemon on a loopback socket.
+func c01BuildCLI(tier string) core.Source {
+	drive.Quiet()
+	type cs struct {
+		mode string // local, push, pull
+		form string // contents, dir, file, two, nested-dir, nested-file, relative
+		args []string
+	}
+	var cases []cs
+	for _, mode := range []string{"local", "push", "pull"} {
+		for _, form := range []string{"contents", "dir", "file", "two", "nested-dir", "nested-file", "relative-dir", "relative-file"} {
+			for _, args := range [][]string{{"-r"}, {"-a"}, {"-rt"}, {"-d"}} {
+				if mode == "pull" && (form == "two" || strings.HasPrefix(form, "relative")) {
+					continue
+				}
+				cases = append(cases, cs{mode, form, args})
+			}
+		}
+	}
+	f := func(p string, n int, salt uint32) tm.Entry { return tm.File(p, genData(famText, n, salt), 0o644, tm.Past) }
+	src := tm.Tree{f("a", 40, 1), f("b", 1500, 2), tm.D("sub", 0o755, tm.Past), f("sub/c", 10, 3), tm.D("sub/deep", 0o755, tm.Past), f("sub/deep/d", 700, 4)}
+	src2 := tm.Tree{f("second", 33, 5)}
+	return core.FuncSource{N: len(cases), F: func(i int) core.Result {
+		c := cases[i]
+		res := core.Result{Case: fmt.Sprintf("command in its own process: mode=%s source-form=%s args=%v", c.mode, c.form, c.args)}
+		ff := []string{"part", "cli", "mode", c.mode, "form", c.form}
+		dir := workDir()
+		defer cleanup(dir)
+		src.Materialise(filepath.Join(dir, "src"))
+		src2.Materialise(filepath.Join(dir, "src2"))
+		dst := filepath.Join(dir, "dst")
+		os.MkdirAll(dst, 0o755)
+		// expected destination entries for recursive options: map of dest path -> source path
+		var sources []string
+		prefix, sub := "", ""
+		switch c.form {
+		case "contents":
+			sources = []string{"src/"}
+		case "dir":
+			sources, prefix = []string{"src"}, "src/"
+		case "file":
+			sources, sub = []string{"src/b"}, "b"
+		case "two":
+			sources = []string{"src/", "src2/"}
+		case "nested-dir":
+			sources, prefix, sub = []string{"src/sub"}, "sub/", "sub"
+		case "nested-file":
+			sources, sub = []string{"src/sub/deep/d"}, "sub/deep/d"
+		case "relative-dir":
+			sources, prefix = []string{"./src"}, "src/"
+		case "relative-file":
+			sources, sub = []string{"src/../src/a"}, "a"
+		}
+		e := effective(c.args)
+		want := map[string]string{}
+		isFileForm := strings.HasSuffix(c.form, "file")
+		for _, s := range src {
+			if s.Type != tm.Reg {
+				continue
+			}
+			rel := s.Path
+			switch {
+			case isFileForm:
+				if rel != sub {
+					continue
+				}
+				want[filepath.Base(rel)] = rel
+				continue
+			case sub != "":
+				if !strings.HasPrefix(rel, sub+"/") {
+					continue
+				}
+				rel = strings.TrimPrefix(rel, sub+"/")
+			}
+			depth := strings.Count(prefix+rel, "/")
+			switch {
+			case e.r:
+				want[prefix+rel] = s.Path
+			case has(c.args, 'd', ""):
+				// --dirs: the named directory (no slash) alone, or the immediate entries of dir/
+				if prefix == "" && depth == 0 {
+					want[rel] = s.Path
+				}
+			}
+		}
+		if c.form == "two" && (e.r || has(c.args, 'd', "")) {
+			want["second"] = "!second"
+		}
+		var args []string
+		args = append(args, c.args...)
+		var srv *rsyncd.Server
+		var ln net.Listener
+		if c.mode != "local" {
+			var err error
+			mods := []rsyncd.Module{{Name: "w", Path: dst, Writable: true}, {Name: "m", Path: dir}}
+			srv, err = rsyncd.NewServer(mods, rsyncd.DontRestrict(), rsyncd.WithStderr(io.Discard), rsyncd.WithLogger(nullLogger{}))
+			if err != nil {
+				res.Inconcl = err.Error()
+				return res
+			}
+			ln, err = net.Listen("tcp", "127.0.0.1:0")
+			if err != nil {
+				res.Inconcl = err.Error()
+				return res
+			}
+			ctx, cancel := context.WithCancel(context.Background())
+			defer cancel()
+			defer ln.Close()
+			go srv.Serve(ctx, ln)
+		}
+		switch c.mode {
+		case "local":
+			args = append(append(args, sources...), "dst/")
+		case "push":
+			args = append(append(args, sources...), fmt.Sprintf("rsync://%s/w/", ln.Addr()))
+		case "pull":
+			args = append(args, fmt.Sprintf("rsync://%s/m/%s", ln.Addr(), sources[0]), "dst/")
+		}
+		rc, stderr := c01RunCLI(dir, args)
+		cnt(&res, "transitions", 1)
+		cnt(&res, "traces_validated_against_impl", 1)
+		if rc != 0 {
+			res.Fail = core.Fail("session_failed", fmt.Sprintf("exit status %d: %s", rc, tail(stderr, 400)), ff...)
+			return res
+		}
+		after, _ := tm.Snapshot(dst, true)
+		cnt(&res, "states", int64(len(want)))
+		for dp, sp := range want {
+			var data []byte
+			if sp == "!second" {
+				data = src2.Find("second").Data
+			} else {
+				data = src.Find(sp).Data
+			}
+			a := after.Find(dp)
+			if a == nil || a.Type != tm.Reg {
+				res.Fail = core.Fail("file_missing", fmt.Sprintf("the command exited 0 but %q is not at the destination (destination has %d entries); output: %s", dp, len(after), tail(stderr, 300)), ff...)
+				return res
+			}
+			if !bytes.Equal(a.Data, data) {
+				res.Fail = core.Fail("content_mismatch", dp, ff...)
+				return res
+			}
+		}
+		res.Nontrivial = len(want) > 0
+		res.Outcome = fmt.Sprintf("ok/files>0=%v", len(want) > 0)
+		return res
 	}}
 }
 
